@@ -407,20 +407,44 @@ func solve(dir, base, text string, timeoutSec int) (SolverResult, []SolverResult
 	// Proving from fewer assumptions or with fewer triggers is still a proof, so
 	// only an "unsat" answer is used; anything else falls through to the full race.
 	{
-		type variant struct{ tag, text string }
+		type variant struct {
+			tag, text string
+			opts      []string
+		}
 		var vs []variant
 		if stripped != text {
-			vs = append(vs, variant{"alltriggers", text})
+			vs = append(vs, variant{"alltriggers", text, nil})
 		}
 		for rounds := 0; rounds <= 1; rounds++ {
 			if pt, ok := pruneQuery(stripped, rounds); ok {
-				vs = append(vs, variant{fmt.Sprintf("subset%d", rounds), pt})
+				vs = append(vs, variant{fmt.Sprintf("subset%d", rounds), pt, nil})
 			}
 		}
 		if pt, ok := pruneQueryQ(stripped, 2, true); ok {
-			vs = append(vs, variant{"subsetq", pt})
+			vs = append(vs, variant{"subsetq", pt, nil})
 			if lt, ok := latestQuantOnly(pt); ok {
-				vs = append(vs, variant{"subsetql", lt})
+				vs = append(vs, variant{"subsetql", lt, nil})
+			}
+		}
+		// goal-directed instantiation (inst.go) of the full query and of the
+		// strictest subset
+		if it, ok := instQuery(stripped, 400); ok {
+			vs = append(vs, variant{"inst", it, nil})
+		}
+		if pt, ok := pruneQueryQ(stripped, 2, true); ok {
+			if it, ok := instQuery(pt, 400); ok {
+				vs = append(vs, variant{"instq", it, nil})
+			}
+		}
+		// the same subsets under different solver configurations: quantified
+		// goals over long store chains are sensitive to the search heuristics
+		// (the same query is decided in 1 s or not in 60 s depending on the
+		// random seed), so diversity buys stability
+		for _, v := range append([]variant{}, vs...) {
+			if v.tag == "subset0" || v.tag == "subsetq" {
+				for _, o := range [][]string{{"smt.arith.solver=2"}, {"smt.array.extensional=false"}, {"smt.relevancy=0"}} {
+					vs = append(vs, variant{v.tag + ":" + o[0], v.text, o})
+				}
 			}
 		}
 		if len(vs) > 0 {
@@ -428,7 +452,14 @@ func solve(dir, base, text string, timeoutSec int) (SolverResult, []SolverResult
 			vch := make(chan SolverResult, len(vs))
 			for i, v := range vs {
 				go func(i int, v variant) {
-					pr := runOne(vctx, solvers[0], dir, fmt.Sprintf("%s_v%d", base, i), v.text, 10)
+					sp := solvers[0]
+					if len(v.opts) > 0 {
+						opts := v.opts
+						sp = solverSpec{name: "z3-new", argv: func(f string, t int) []string {
+							return append(append([]string{"z3-new", fmt.Sprintf("-T:%d", t)}, opts...), f)
+						}}
+					}
+					pr := runOne(vctx, sp, dir, fmt.Sprintf("%s_v%d", base, i), v.text, 10)
 					pr.Solver += "/" + v.tag
 					vch <- pr
 				}(i, v)
@@ -598,7 +629,11 @@ func pruneQueryQ(text string, rounds int, strictQuant bool) (string, bool) {
 			var flat func(q string, depth int)
 			flat = func(q string, depth int) {
 				parts := splitTopAnd(q)
-				if len(parts) == 1 || depth > 6 {
+				maxDepth := 6
+				if !strictQuant {
+					maxDepth = 1 // subset0/subset1 keep the two-level split they were tuned with
+				}
+				if len(parts) == 1 || depth > maxDepth {
 					asserts = append(asserts, len(out))
 					out = append(out, "(assert "+q+")")
 					return
@@ -726,4 +761,129 @@ var backwardAllocRe = regexp.MustCompile(`(\(assert \(forall \(\(r Ref\)\) \(! \
 // allocation-monotonicity axiom; the formulas stay the same.
 func stripBackwardAllocTriggers(text string) string {
 	return backwardAllocRe.ReplaceAllString(text, "$1)))")
+}
+
+var smtSymRe = regexp.MustCompile(`[A-Za-z_$\^][^\s()]*`)
+
+var smtReserved = map[string]bool{"assert": true, "and": true, "or": true, "not": true, "ite": true, "select": true, "store": true, "forall": true, "exists": true,
+	"true": true, "false": true, "Int": true, "Bool": true, "Ref": true, "Array": true, "null": true, "div": true, "mod": true, "distinct": true, "let": true}
+
+// sineQuery: SInE-style relevance filter (Hoder & Voronkov). A symbol s
+// triggers an assumption A if s occurs in A and is (nearly) the rarest symbol
+// of A; starting from the goal's symbols, assumptions triggered by a relevant
+// symbol become relevant (and contribute their symbols) for `depth` rounds.
+// Everything else is dropped. Proving from a subset of the assumptions is
+// still a proof; only "unsat" answers are used.
+func sineQuery(text string, depth int, tol float64) (string, bool) {
+	lines := strings.Split(text, "\n")
+	goalIdx := -1
+	for i, l := range lines {
+		if strings.HasPrefix(l, "(assert ") {
+			goalIdx = i
+		}
+	}
+	if goalIdx < 0 {
+		return "", false
+	}
+	var out []string
+	var asserts []int
+	for i, l := range lines {
+		if i != goalIdx && strings.HasPrefix(l, "(assert (and ") && strings.HasSuffix(l, ")") {
+			var flat func(q string, d int)
+			flat = func(q string, d int) {
+				parts := splitTopAnd(q)
+				if len(parts) == 1 || d > 6 {
+					asserts = append(asserts, len(out))
+					out = append(out, "(assert "+q+")")
+					return
+				}
+				for _, p := range parts {
+					flat(p, d+1)
+				}
+			}
+			flat(l[len("(assert "):len(l)-1], 0)
+			continue
+		}
+		if i != goalIdx && strings.HasPrefix(l, "(assert ") {
+			asserts = append(asserts, len(out))
+		}
+		out = append(out, l)
+	}
+	symsOf := func(l string) map[string]bool {
+		m := map[string]bool{}
+		for _, s := range smtSymRe.FindAllString(l, -1) {
+			if smtReserved[s] || strings.HasPrefix(s, ":") {
+				continue
+			}
+			if strings.Contains(s, "!q") {
+				continue // bound variable
+			}
+			m[s] = true
+		}
+		return m
+	}
+	syms := make([]map[string]bool, len(out))
+	occ := map[string]int{}
+	for _, ai := range asserts {
+		syms[ai] = symsOf(out[ai])
+		for s := range syms[ai] {
+			occ[s]++
+		}
+	}
+	// triggers: the rarest symbols of each assumption
+	trig := make([]map[string]bool, len(out))
+	for _, ai := range asserts {
+		min := 1 << 30
+		for s := range syms[ai] {
+			if occ[s] < min {
+				min = occ[s]
+			}
+		}
+		trig[ai] = map[string]bool{}
+		for s := range syms[ai] {
+			if float64(occ[s]) <= tol*float64(min) {
+				trig[ai][s] = true
+			}
+		}
+	}
+	rel := symsOf(lines[goalIdx])
+	keep := map[int]bool{}
+	for d := 0; d < depth; d++ {
+		var added []int
+		for _, ai := range asserts {
+			if keep[ai] {
+				continue
+			}
+			for s := range trig[ai] {
+				if rel[s] {
+					added = append(added, ai)
+					break
+				}
+			}
+		}
+		if len(added) == 0 {
+			break
+		}
+		for _, ai := range added {
+			keep[ai] = true
+			for s := range syms[ai] {
+				rel[s] = true
+			}
+		}
+	}
+	dropped := 0
+	var b strings.Builder
+	isAssert := map[int]bool{}
+	for _, ai := range asserts {
+		isAssert[ai] = true
+	}
+	for i, l := range out {
+		if isAssert[i] && !keep[i] {
+			dropped++
+			continue
+		}
+		b.WriteString(l)
+		b.WriteByte('\n')
+	}
+	return b.String(), dropped > 0
 }
